@@ -596,14 +596,14 @@ class Prog:
         m[id(n)] = x
         return x
 
-    def add_case(self, tree, root_ti, with_size, typed, style, force):
+    def add_case(self, tree, root_ti, with_size, typed, style, force, fresh=False):
         self.negzero = False
         self.prep_values(tree)
         self.mark_shared(tree)
         self.lowered = getattr(self, "lowered", [])
         self.lowered.append(self.lower(tree, force, None, style))
         self.meta = getattr(self, "meta", [])
-        self.meta.append((root_ti, with_size, typed))
+        self.meta.append((root_ti, with_size, typed, fresh))
         o = []
         refs = {}
         T = "g_T%d" % root_ti
@@ -650,6 +650,13 @@ class Prog:
         o.append("static const int root_ti[] = {%s};" % ", ".join(str(m[0]) for m in meta))
         o.append("static const int with_size[] = {%s};" % ", ".join(str(int(m[1])) for m in meta))
         o.append("static const int typed[] = {%s};" % ", ".join(str(int(m[2])) for m in meta))
+        o.append("static const int fresh_b[] = {%s};" % ", ".join(str(int(m[3])) for m in meta))
+        o.append("#define DO_CLONE %d" % int(bool(getattr(self, "clone", False))))
+        o.append("#include \"flatcc/flatcc_refmap.h\"")
+        # clone the finished root table into a FRESH builder (its stacks have their initial sizes), with and without a reference map
+        csw = "\n".join(("    case %d: { g_T%d_table_t t0 = ty ? (ws ? g_T%d_as_typed_root((char *)buf + 4) : g_T%d_as_typed_root(buf)) : (ws ? g_T%d_as_root((char *)buf + 4) : g_T%d_as_root(buf));"
+                         " ok = g_T%d_clone_as_root(B2, t0) != 0; cb = ok ? flatcc_builder_finalize_aligned_buffer(B2, &cs) : 0;"
+                         " if (cb && pass == 0) { printf(\" clone=\"); dump_T%d(g_T%d_as_root(cb)); cv = g_T%d_verify_as_root(cb, cs); } } break;") % ((ti,) * 10) for ti in range(len(self.tables)))
         dsw = "\n".join(("    case %d: dump_T%d(ty ? (ws ? g_T%d_as_typed_root((char *)buf + 4) : g_T%d_as_typed_root(buf)) : (ws ? g_T%d_as_root((char *)buf + 4) : g_T%d_as_root(buf)));"
                          " vr = ty ? (ws ? g_T%d_verify_as_typed_root_with_size(buf, size) : g_T%d_verify_as_typed_root(buf, size)) : (ws ? g_T%d_verify_as_root_with_size(buf, size) : g_T%d_verify_as_root(buf, size)); break;") % ((ti,) * 10) for ti in range(len(self.tables)))
         o.append("""
@@ -659,7 +666,8 @@ int main(int argc, char **argv) {
     flatcc_builder_init(B);
     for (i = argc > 1 ? atoi(argv[1]) : 0; i < n; ++i) {
         size_t size = 0, k; void *buf; int ws = with_size[i], ty = typed[i], vr = -1;
-        flatcc_builder_reset(B);
+        /* cases with long vectors run on a builder whose stacks still have their initial sizes */
+        if (fresh_b[i]) { flatcc_builder_clear(B); flatcc_builder_init(B); } else flatcc_builder_reset(B);
         if (cases[i](B)) { printf("case %d build-failed\\n", i); continue; }
         buf = flatcc_builder_finalize_aligned_buffer(B, &size);
         if (!buf) { printf("case %d finalize-failed\\n", i); continue; }
@@ -669,13 +677,31 @@ int main(int argc, char **argv) {
         switch (root_ti[i]) {
 @DSW@
         }
-        printf(" verify=%d\\n", vr);
+        printf(" verify=%d", vr);
+#if DO_CLONE
+        if (vr == 0) {
+            int pass; size_t csz[2] = {0, 0}; int cv = -1, okc[2] = {0, 0};
+            for (pass = 0; pass < 2; ++pass) {      /* pass 0: with a reference map (sharing kept); pass 1: without */
+                flatcc_builder_t b2, *B2 = &b2; flatcc_refmap_t rm; void *cb = 0; size_t cs = 0; int ok = 0;
+                flatcc_builder_init(B2); flatcc_refmap_init(&rm);
+                if (pass == 0) flatcc_builder_set_refmap(B2, &rm);
+                switch (root_ti[i]) {
+@CSW@
+                }
+                okc[pass] = ok && cb; csz[pass] = cs;
+                if (cb) flatcc_builder_aligned_free(cb);
+                flatcc_builder_clear(B2); flatcc_refmap_clear(&rm);
+            }
+            printf(" cverify=%d cok=%d,%d csize=%u,%u", cv, okc[0], okc[1], (unsigned)csz[0], (unsigned)csz[1]);
+        }
+#endif
+        printf("\\n");
         flatcc_builder_aligned_free(buf);
     }
     flatcc_builder_clear(B);
     return 0;
 }
-""".replace("@DSW@", dsw))
+""".replace("@DSW@", dsw).replace("@CSW@", csw))
         return "\n".join(o)
 
 
